@@ -201,6 +201,8 @@ Accumulator ( CpcSketch ) , BitMatrix ( Vec < u64 > ) , }
 
 
 
+const DEFAULT_LG_K: u8 = 11;
+const DEFAULT_UPDATE_SEED: u64 = 9001;
 struct CpcUnion {
 lg_k : u8 , seed : u64 , state : UnionState , }
 
@@ -230,6 +232,50 @@ impl CpcUnion {
             UnionState::Accumulator(s) => true,
             UnionState::BitMatrix(m) => self.lg_k <= 18 && 32 * am_popcount(self.um()) >= 3 * self.k() && 8 * am_popcount(self.um()) < (27 + 8 * 56) * self.k(),
         }
+    }
+
+    // a fresh union: an Accumulator holding an EMPTY sketch, so U = the all-zero k x 64 matrix
+    spec fn fresh(&self, lg_k: u8, seed: u64) -> bool {
+        &&& self.lg_k == lg_k && self.seed == seed
+        &&& match self.state { UnionState::Accumulator(s) => s.num_coupons == 0 && s.seed == seed && s.lg_k == lg_k && !s.merge_flag, UnionState::BitMatrix(m) => false }
+    }
+    fn default() -> (r: Self)
+      ensures /*@C06.union.new.wf*/ r.uwf(), /*@C06.union.new.fresh*/ r.fresh(DEFAULT_LG_K, DEFAULT_UPDATE_SEED),
+        /*@C06.union.new.empty*/ forall|row: int, c: int| 0 <= row < r.k() && 0 <= c < 64 ==> !r.ubit(row, c),
+        /*@C06.union.new.count*/ am_popcount(r.um()) == 0,
+    {
+        Self::new(DEFAULT_LG_K)
+    }
+    fn new(lg_k: u8) -> (r: Self)
+      requires 4 <= lg_k <= 26
+      ensures /*@C06.union.new.wf*/ r.uwf(), /*@C06.union.new.fresh*/ r.fresh(lg_k, DEFAULT_UPDATE_SEED),
+        /*@C06.union.new.empty*/ forall|row: int, c: int| 0 <= row < r.k() && 0 <= c < 64 ==> !r.ubit(row, c),
+        /*@C06.union.new.count*/ am_popcount(r.um()) == 0,
+    {
+        Self::with_seed(lg_k, DEFAULT_UPDATE_SEED)
+    }
+    fn with_seed(lg_k: u8, seed: u64) -> (r: Self)
+      requires 4 <= lg_k <= 26
+      ensures /*@C06.union.new.wf*/ r.uwf(), /*@C06.union.new.fresh*/ r.fresh(lg_k, seed),
+        /*@C06.union.new.empty*/ forall|row: int, c: int| 0 <= row < r.k() && 0 <= c < 64 ==> !r.ubit(row, c),
+        /*@C06.union.new.count*/ am_popcount(r.um()) == 0,
+    {
+        // We begin with the accumulator holding an EMPTY_MERGED sketch object.
+        let sketch = CpcSketch::with_seed(lg_k, seed);
+        let state = UnionState::Accumulator(sketch);
+        proof {
+            lemma_k_bound(lg_k);
+            assert forall|u: CpcUnion| u.fresh(lg_k, seed) && u.uwf() implies #[trigger] am_popcount(u.um()) == 0 by {
+                assert forall|row: int, c: int| 0 <= row < u.k() && 0 <= c < 64 implies !am_get(u.um(), row, c) by { }
+                lemma_lin_zero(u.um(), 64 * u.k());
+            }
+        }
+        Self { lg_k, seed, state }
+    }
+    fn lg_k(&self) -> (r: u8)
+      ensures /*@C06.union.lg_k*/ r == self.lg_k
+    {
+        self.lg_k
     }
 
     fn to_sketch ( & self ) -> ( r : CpcSketch ) requires self . uwf ( ) , self . ts_pre ( ) , ensures
